@@ -228,6 +228,10 @@ func parseInto(out *Version, input string) error {
 		if epoch < 0 {
 			return fmt.Errorf("epoch in version is negative")
 		}
+		// strconv.ParseInt admits a sign ("+1", "-0"), an epoch does not.
+		if strings.IndexFunc(trimmed[:colon], func(c rune) bool { return !cisdigit(c) }) != -1 {
+			return fmt.Errorf("epoch in version is not number")
+		}
 		result.Epoch = uint(epoch)
 	}
 
